@@ -6,6 +6,7 @@ import GrmVerif.Drive.C09
 import GrmVerif.Drive.C11
 import GrmVerif.Drive.C12
 import GrmVerif.Drive.C20
+import GrmVerif.Drive.C18
 /-! `gvdriver`: one request per line `<prop> <case-id> <nat>…`; replies are prefixed with the case id. -/
 open GrmVerif.Drive
 
@@ -19,6 +20,7 @@ def dispatch (prop : String) (args : List Nat) : String :=
   | "C11" => C11.handle args
   | "C12" => C12.handle args
   | "C20" => C20.handle args
+  | "C18" => C18.handle args
   | _ => "bad-prop"
 
 def prefixLines (id : String) (s : String) : String :=
